@@ -1077,6 +1077,12 @@ impl MetadataClient for ObjectStoreMetadataClient {
         range: TimeRange,
         predicates: &[super::predicates::ColumnPredicate],
     ) -> Result<Vec<TimeIndexEntry>> {
+        // An inverted range denotes no instant at all: nothing can overlap it
+        // (and BTreeMap::range panics when start > end).
+        if range.start > range.end {
+            return Ok(Vec::new());
+        }
+
         // Load unified catalog (from cache or S3)
         let catalog = self.load_catalog_cached().await?;
 
